@@ -135,6 +135,13 @@ def check(an: Analysis) -> None:
         oo = d.origins(recv)
         if not ({"attr:self._loop", "call:asyncio.get_running_loop"} >= oo and "call:asyncio.get_running_loop" in oo):
             ob.fail(f, c, "the loop used is neither the configured one nor the running loop")
+        # a call leaves no trace on the wrapper: the running loop (or anything else of this call) is not remembered for later calls
+        for n in f.own_nodes():
+            if isinstance(n, (ast.Assign, ast.AnnAssign, ast.AugAssign)):
+                for t in n.targets if isinstance(n, ast.Assign) else [n.target]:
+                    root = t.value if isinstance(t, ast.Subscript) else t
+                    if isinstance(root, ast.Attribute) and is_name(root.value, "self"):
+                        ob.fail(f, n, f"a call stores `{stmt_text(t, 40)}` on the wrapper: what one call resolved (e.g. the running event loop) is reused by later calls made from another loop / context")
 
     # ------------------------------------------------------------------ C18.3 traced preserves the exception
     ob = an.ob("C18.3", "K4", "traced: the handler around the call catches BaseException, records ResultTrace.of(exc) and re-raises the same object", [f.short for f in traced_fns])
